@@ -13,6 +13,14 @@ def sig_len(classes, c):
     return n
 
 
+def kwonly_len(classes, c):
+    n = 0
+    while c is not None:
+        n += len(classes[c].get('kwonly', []))
+        c = classes[c]['parent']
+    return n
+
+
 def is_sub(classes, c, T):
     while c is not None:
         if c == T:
@@ -83,9 +91,17 @@ class C13:
             # attributes that are NOT constructor parameters (dataclass fields with init=False), declared before the own field
             # of that index: they are not part of the signature the positional arguments are matched against
             cs['hidden'] = sorted(rng.sample(range(own + 1), rng.randint(1, min(2, own + 1)))) if rng.random() < 0.3 else []
+            # KEYWORD-ONLY constructor fields (dataclass kw_only=True): declared anywhere, they come after every positional parameter
+            # in the signature - the k-th positional argument is the k-th parameter of the SIGNATURE, not the k-th declared field
+            cs['kwonly'] = []
             classes.append(cs)
             if sig_len(classes, c) > 4:
                 cs['own'] = 0
+        # (only in classes WITHOUT subclasses, so that a subclass lays its fields out as its superclass does, own fields appended:
+        #  the first declared own field becomes keyword-only and so the LAST parameter of the signature)
+        for c, cs in enumerate(classes):
+            if cs['own'] >= 2 and not any(k['parent'] == c for k in classes) and rng.random() < 0.5:
+                cs['kwonly'] = [0]
         nobj = rng.randint(4, 8)
         heap = []
         for o in range(nobj):
@@ -126,7 +142,7 @@ class C13:
             target = want if (want in inst and rng.random() < 0.8) else (rng.choice(inst) if inst else None)
             n = sig_len(classes, T)
             npos = rng.choice([0, 0, 1, 1, 2]) if depth == 0 else rng.choice([0, 1])
-            npos = min(npos, n)
+            npos = min(npos, n - kwonly_len(classes, T))
             rest = [f for f in range(npos, n) if rng.random() < 0.4]
 
             def gen_val(f):
@@ -221,6 +237,7 @@ class C13:
         d['classes_%d' % len(case['classes'])] += 1
         d['undecorated_subclasses'] += sum(1 for c in case['classes'] if not c['decorated'])
         d['classes_with_attributes_outside_the_signature'] += sum(1 for c in case['classes'] if c.get('hidden'))
+        d['classes_with_keyword_only_fields'] += sum(1 for c in case['classes'] if c.get('kwonly'))
         for t in case['terms']:
             for p in walk_terms(t):
                 d['terms'] += 1
